@@ -481,24 +481,19 @@ func publishAfterRun(c *an.Ctx, s *sched, rule string) {
 			if !isConst {
 				wkey = an.Short(fn) + ":write(?)"
 			}
+			var rcs []ssa.Instruction
+			for _, rc := range s.runnerCalls {
+				rcs = append(rcs, rc)
+			}
 			dominated := false
 			if fn == body {
-				for _, rc := range s.runnerCalls {
-					if an.Dominates(rc, in) {
-						dominated = true
-					}
-				}
+				// (alternative runner calls in different branches count together)
+				dominated = an.DominatedBySet(rcs, in)
 			} else {
 				// nested closure (deferred): every way out of the body must have passed the runner call
 				dominated = true
 				for _, ret := range an.Returns(body) {
-					d := false
-					for _, rc := range s.runnerCalls {
-						if an.Dominates(rc, ret) {
-							d = true
-						}
-					}
-					if !d {
+					if !an.DominatedBySet(rcs, ret) {
 						dominated = false
 					}
 				}
